@@ -147,8 +147,11 @@ class MarkingDefinition(_STIXBase20, _MarkingsMixin):
                 ])
 
             if not isinstance(kwargs['definition'], marking_type):
-                defn = _get_dict(kwargs['definition'])
-                kwargs['definition'] = marking_type(**defn)
+                try:
+                    defn = _get_dict(kwargs['definition'])
+                    kwargs['definition'] = marking_type(**defn)
+                except RecursionError:
+                    raise ValueError("definition is nested too deeply")
 
         super(MarkingDefinition, self).__init__(**kwargs)
 
